@@ -56,6 +56,11 @@ def shape_gen(kind, n):
 def shape_bin(B):
     import z3
     res = shapes.resolver(B)
+    # the directive is written in an INNER scope (a block, a macro application, a loop iteration): its symbols belong to that scope
+    root = B.I.hget(B.st, res).fields["current_scope"]
+    inner = shapes.scope(B, res, root)
+    B.I.hmut(B.st, B.I.hget(B.st, res).fields["scopes"]).items.append(inner)
+    B.I.hmut(B.st, res).fields["current_scope"] = inner
     content = B.symseq("content")
     addr = shapes.lorom_address(B, room=0)
     # the quantifier: lengths that may cross bank ends but stay inside the mapped ROM range
